@@ -80,11 +80,27 @@ def generate(rng, tier):
         if rng.random() < 0.3:
             ops.append({"op": "close", "on": "Q"})
         actors.append({"name": "k0", "ops": ops})
-    actors.append({"name": "zdrain", "after": 4096,
-                   "ops": [{"op": "close", "on": "Q"}, {"op": "iter", "on": "Q"},
-                           {"op": "get", "on": "Q"}]})
+    drain = [{"op": "close", "on": "Q"}, {"op": "iter", "on": "Q"}, {"op": "get", "on": "Q"}]
+    resources = {"Q": {"kind": "queue"}}
+    if rng.random() < 0.3:
+        # a second, unrelated queue: mostly idle, with a receiver parked on it from the start -
+        # whatever happens there must not show on Q (and the other way round)
+        resources["Q2"] = {"kind": "queue"}
+        ops = []
+        _gap(rng, ops)
+        ops.append({"op": "get", "on": "Q2"} if rng.random() < 0.6 else
+                   {"op": "iter", "on": "Q2", "body": [], "n": rng.randint(1, 2)})
+        actors.append({"name": "c2x", "ops": ops})
+        if rng.random() < 0.6:
+            ops = [{"op": "sleep", "d": rng.choice(DELAYS + [3, 4])}]
+            for j in range(rng.randint(1, 3)):
+                ops.append({"op": "put", "on": "Q2", "v": 2000 + j})
+                _gap(rng, ops)
+            actors.append({"name": "p2x", "ops": ops})
+        drain += [{"op": "close", "on": "Q2"}, {"op": "iter", "on": "Q2"}, {"op": "get", "on": "Q2"}]
+    actors.append({"name": "zdrain", "after": 4096, "ops": drain})
     return {"property": ID,
-            "scenario": {"resources": {"Q": {"kind": "queue"}}, "actors": actors},
+            "scenario": {"resources": resources, "actors": actors},
             "plan": [], "config": {"waitq": rng.choice(["heap", "sd"])}}
 
 
@@ -102,11 +118,26 @@ WAIT_END = ("get-", "get.closed", "get!", "iter.item", "iter-", "iter!")
 
 
 def check(rec):
+    """Every Queue of the scenario is checked on its own (they must not influence each other)."""
+    out, seen = [], set()
+    names = [name for name, spec in rec.case["scenario"]["resources"].items()
+             if spec.get("kind") == "queue"]
+    for name in names or ["Q"]:
+        for violation in _check_one(rec, name):
+            key = (violation["rule"], violation["msg"])
+            if key not in seen and len(out) < 5:
+                seen.add(key)
+                out.append(violation)
+    return out
+
+
+def _check_one(rec, qname):
     out = []
 
     def bad(rule, msg):
         if len(out) < 5:
-            out.append({"rule": "C10/" + rule, "msg": msg})
+            out.append({"rule": "C10/" + rule, "msg": msg if qname == "Q" else
+                        "[%s] %s" % (qname, msg)})
 
     for rule, msg in rec.kernel_violations:
         bad("kernel:" + rule, msg)
@@ -129,8 +160,8 @@ def check(rec):
     last_time = None
     for ev in rec.trace:
         tick, act, now, actor, kind = ev[:5]
-        if kind[:3] in ("put", "get", "ite", "clo") and len(ev) > 5 and ev[5] != "Q":
-            continue                     # another stream of a mixed program
+        if kind[:3] in ("put", "get", "ite", "clo") and len(ev) > 5 and ev[5] != qname:
+            continue                     # another stream of the program
         if last_time is not None and now != last_time:
             firm = [v for v, opt in buffer if not opt]
             if firm and waiting:
